@@ -208,11 +208,24 @@ def run_languagetool(plain, language, disable, enable,
 
     try:
         out = out.decode(encoding='utf-8')
-        dic = json_decoder.decode(out)
+        dic = clean_surrogates(json_decoder.decode(out))
     except:
         json_fatal('JSON root element')
     matches = json_get(dic, 'matches', list)
     return matches
+
+#   the proofreader may cut a text, e.g. the context of a match, inside of a
+#   surrogate pair: replace unpaired surrogates in all strings of the decoded
+#   answer, they cannot be written to a UTF-8 report
+#
+def clean_surrogates(obj):
+    if isinstance(obj, str):
+        return obj.encode('utf-8', 'replace').decode('utf-8')
+    if isinstance(obj, list):
+        return [clean_surrogates(o) for o in obj]
+    if isinstance(obj, dict):
+        return {k: clean_surrogates(v) for k, v in obj.items()}
+    return obj
 
 #   start local LT server, if none is running
 #
@@ -290,7 +303,7 @@ def run_textgears(plain):
 
     try:
         out = out.decode(encoding='utf-8')
-        dic = json_decoder.decode(out)
+        dic = clean_surrogates(json_decoder.decode(out))
     except:
         json_fatal('JSON root element')
 
